@@ -49,7 +49,8 @@ def handleRt (j : Json) : Except String Json := do
         ("baseIdsNodup", Json.bool ((m.rels.map EP.baseId).eraseDups.length == m.rels.length)),
         ("wf", Json.bool m.isWellFormed), ("ivprop", Json.bool m.hasIVProperty),
         ("rolesOk", Json.bool (RolesOk m)), ("ivSorts", Json.bool (IVSorts m)),
-        ("rstrLinked", Json.bool rstr), ("repsAgree", Json.bool agree)]
+        ("rstrLinked", Json.bool rstr), ("repsAgree", Json.bool agree),
+        ("scopesHeld", Json.bool (ScopesHeld m d)), ("noDescArg", Json.bool (NoDescArg m))]
       pure (Json.mkObj [("d1", jExcept jDMRS d1), ("m2", jExcept jMRS m2), ("d2", d2), ("hyp", hyp2)])
 
 /-- `{"op":"from_dmrs","d":dmrs,"chosen":[…]}` → `from_dmrs(d)` -/
